@@ -5,13 +5,18 @@
      - adversarial side (Proofs/AdvGadgets.v): ANY assignment satisfying the constraints that to_bits(k) / assert_positive(k)
        emit has k boolean wires whose weighted sum is the operand, and the operand is congruent to some 0 <= v < 2^k:
        values outside the range cannot be proven, and the width argument is the width enforced.
-   Not proved in Coq: the packers of pysnark/pack.py (bit-length arithmetic, offsets, unpack after pack); they are in the
-   model (Prog.pack_v / unpack_v), tied to the code by the correspondence, and decided by round-trip runs over generated
-   schemas and by the witness-space search at widths different from the global bitlength. *)
+     - packing (PackIntMod, plain values): for every modulus m and every 0 <= z < m, pack gives the bitlen(m) Python
+       bits of z and unpack of those bits gives z back, allocating nothing and emitting nothing (C16_pack_unpack_intmod;
+       Proofs/PackCore.v, which also proves the monad law of [run]).  (Modulus 1, a zero-width field,
+       used to raise IndexError: found while proving this theorem, fixed in /repo by 95c6e1c.)
+   Not proved in Coq: structured schemas (PackList / PackRepeat offsets) and secret inputs; they are in the model
+   (Prog.pack_v / unpack_v), tied to the code by the correspondence, and decided by round-trip runs over generated schemas
+   and by the witness-space search at widths different from the global bitlength. *)
 From Coq Require Import ZArith List Bool Lia Znumtheory.
 From PySnark.Base Require Import FieldZ Bits.
 From PySnark.Model Require Import Lc Sym Good Gadgets.
-From PySnark.Proofs Require Import Meta Sound Wp WpBase GadgetsOK Values Adv AdvGadgets.
+From PySnark.Model Require Import Api Prog.
+From PySnark.Proofs Require Import Meta Sound Wp WpBase GadgetsOK Values Adv AdvGadgets PackCore.
 Import ListNotations.
 Open Scope Z_scope.
 
@@ -29,7 +34,7 @@ Hypothesis Hp : prime p.
 Variable w : var -> Z.
 Hypothesis W0 : w 0 = 1.
 Variable s : @Gadgets.gst p.
-Hypothesis G : guard s = None.
+Hypothesis G : AdvGadgets.Gok w s.     (* no active guard, or the active guard wire evaluates to 1 under w (a true guard is transparent) *)
 Notation "a == b" := (feq p a b) (at level 70).
 Notation ew := (AdvGadgets.ew w).
 Notation sat cs := (Forall (holds (p:=p) w) (cons_of cs)).
@@ -44,6 +49,12 @@ Theorem C16_bits_unique : forall k bs cs x, 2 ^ Z.of_nat k <= p -> length bs = k
 Proof. exact (to_bits_sound p Hp). Qed.
 End C16_model.
 
+Theorem C16_pack_unpack_intmod : forall (p : Z) (c : cfg) m z (s : @Gadgets.gst p), 0 <= z < m ->
+  run (pack_v (KIntMod m) (PInt z)) s = (inl (PList (py_bits z (bitlen_of m))), s, []) /\
+  run (unpack_v c (KIntMod m) (py_bits z (bitlen_of m)) 0) s = (inl (PInt z), s, []).
+Proof. intros p c. exact (pack_unpack_intmod c). Qed.
+
+Print Assumptions C16_pack_unpack_intmod.
 Print Assumptions C16_bits_recompose.
 Print Assumptions C16_honest_bits.
 Print Assumptions C16_width_enforced.
